@@ -243,6 +243,15 @@ func parseTerms(fuzzy bool, caseMode Case, normalize bool, str string) []termSet
 	return sets
 }
 
+// HasNoTerms returns true if the pattern has no search terms (it may still
+// carry a deny list)
+func (p *Pattern) HasNoTerms() bool {
+	if !p.extended {
+		return len(p.text) == 0
+	}
+	return len(p.termSets) == 0
+}
+
 // IsEmpty returns true if the pattern is effectively empty
 func (p *Pattern) IsEmpty() bool {
 	if len(p.denylist) > 0 {
